@@ -35,7 +35,7 @@ def main():
         out["replay_with_change_exit"] = r.returncode
         out["replay_with_change_violations"] = sum(l.startswith("VIOLATION") for l in r.stdout.splitlines())
     finally:
-        sh("git -C %s checkout -- ." % REPO)
+        sh("git -C %s checkout -- . && git -C %s clean -fdq -- nutype nutype_macros test_suite examples" % (REPO, REPO))
     r = sh("cd %s && ./check %s --replay %s" % (VERIF, c, keep))
     out["replay_clean_exit"] = r.returncode
     if r.returncode not in (0, 1):
